@@ -24,7 +24,7 @@ def main():
     in_repo = "--in-repo" in sys.argv
     tier = "quick"
     meta = json.loads((d / "meta.json").read_text())
-    head = sh("git", "-C", "/repo", "rev-parse", "HEAD").stdout.strip()
+    head = sh("git", "-C", "/repo", "rev-parse", meta.get("base_commit", "HEAD")).stdout.strip()
     if in_repo:
         tree = Path("/repo")
         assert sh("git", "-C", "/repo", "status", "--porcelain").stdout.strip() == "", "repo dirty"
